@@ -98,7 +98,7 @@ Proof.
   - destruct (run_outs w_state w_ops); reflexivity.
   - assert (Hb : forallb (fun r => negb (p_capped r)) (pays (snd (run_outs w_state w_ops))) = true) by (vm_compute; reflexivity).
     unfold never_capped. apply Forall_forall. intros r Hr. rewrite forallb_forall in Hb. specialize (Hb r Hr).
-    destruct (p_capped r); [discriminate|reflexivity].
+    apply negb_true_iff in Hb. exact Hb.
   - vm_compute; reflexivity.
   - vm_compute; reflexivity.
   - vm_compute; reflexivity.
@@ -249,11 +249,11 @@ Proof. vm_compute. reflexivity. Qed.
 (* the hypotheses of the history theorems are satisfiable by a state that pays, carries and switches *)
 Example C19_hypotheses_satisfiable :
   let s := mk_state [1704067200000000000; 0; 744191500000000000000000; 1704067300000000000; 5000000000000000000;
-                     1000000000000; 0; 0; 1100000000000000; 70000000000000000; 200000000000000000; 20000000000000000; 1; 1704067200000000000]
+                     1000000000000; 2000; 0; 1100000000000000; 70000000000000000; 200000000000000000; 20000000000000000; 1; 1704067200000000000]
                     [mkPeriod 1703980800000000000 1729987200000000000 1000000003022265980] [] in
   let ops := [Block 1704067206500000000 17 0; PoolAdj 5; Block 1704067300000000000 23 1000; Block 1704067306000000000 9 0] in
   inv_b s = true /\
   (let '(sf, outs) := run_outs s ops in
-   (paid_sum outs, fired_count outs, off sf = off sf, supply sf - supply s, c_rate sf))
-  = (4837244 + 465069688 + 30, 1%nat, eq_refl, 17 + 3616161, 5000000000000000000).
+   (map p_paid (pays outs), fired_count outs, supply sf - supply s, c_rate sf, m_max sf, kd_active sf, sr_err sf))
+  = ([4837244; 468; 30], 1%nat, 19946972, 5000000000000000000, 0, false, 250000000000000000).
 Proof. cbv zeta. split; vm_compute; reflexivity. Qed.
